@@ -85,7 +85,8 @@ fn tanh(z: Complex<f64>) -> Complex<f64> {
             2.0 * (2.0 * z.im).sin() * (-2.0 * z.re.abs()).exp(),
         )
     } else {
-        z.tanh()
+        // not the closed form over cos 2y + cosh 2x: that denominator cancels next to the poles (tanh(acosh(1e-5+2e-5i)) was off by 8e-8)
+        z.sinh() / z.cosh()
     }
 }
 
@@ -112,7 +113,7 @@ pub fn eval(expr: Node) -> Result<Complex<f64>, Box<dyn error::Error>> {
                 let w = tanh(Complex::new(-z.im, z.re));
                 Ok(Complex::new(w.im, -w.re))
             } else {
-                Ok(z.tan())
+                Ok(z.sin() / z.cos())
             }
         }
         Sinh(sub_expr) => Ok(eval(*sub_expr)?.sinh()),
